@@ -168,6 +168,8 @@ def run(ctx):
                         m.partial_fit(X, y)
                     elif op == "predict":
                         predict(m, Xq, task)
+                        if task == "clf":
+                            m.predict(np.vstack([Xq, Xq]))      # hard predictions: ties are broken with the model's generator
                     elif op == "set_params":
                         m.set_params(**{pname: pval})
                         before = deep_snap(m.get_params(deep=True))
@@ -182,9 +184,19 @@ def run(ctx):
                                       what=f"{name}.{op} changed what get_params reports ({(d or dd)[:3]})")
                         raise StopIteration
                 Xf, yf = data(rng, task, scale=float(rng.choice([0.2, 8.0])))
+                cold = task == "clf" and h % 3 == 2
+                if cold:
+                    yf = np.full(len(yf), np.nan)           # no labels at all: every hard prediction is a tie broken at random
                 m.fit(Xf, yf)
                 fresh = clone(m).fit(Xf, yf)
                 a, b = predict(m, Xq, task), predict(fresh, Xq, task)
+                if task == "clf":
+                    Xt = np.vstack([Xq] * 5)
+                    ha, hb = np.asarray(m.predict(Xt)), np.asarray(fresh.predict(Xt))
+                    if not np.array_equal(ha, hb):
+                        ctx.violation(name, "history_leaks_into_fit", f"refit after {hist}: hard predictions {ha.tolist()}, a fresh clone {hb.tolist()}",
+                                      {"learner": name, "history": hist, "seed": seed, "X": Xf.tolist(), "y": [None if np.isnan(v) else v for v in yf], "cold": bool(cold)},
+                                      what=f"{name}: a used object refitted on the same data predicts differently from a fresh clone (tie-breaking state survived the refit; history {hist})")
                 ctx.count("history:" + name)
                 if hist.count("fit") >= 1:
                     ctx.nontriv((name, tuple(hist), seed))
